@@ -579,6 +579,7 @@ func (r *Runner) cmd(ctx context.Context, cm syntax.Command) {
 			r.cmd(ctx, cm.Else)
 		}
 	case *syntax.WhileClause:
+		var last exitStatus // of the last run of the body, which is the loop's
 		for !r.stop(ctx) {
 			oldNoErrExit := r.noErrExit
 			r.noErrExit = true
@@ -587,7 +588,13 @@ func (r *Runner) cmd(ctx context.Context, cm syntax.Command) {
 
 			stop := r.exit.ok() == cm.Until
 			r.exit.clear()
-			if stop || r.loopStmtsBroken(ctx, cm.Do) {
+			if stop {
+				r.exit = last
+				break
+			}
+			broken := r.loopStmtsBroken(ctx, cm.Do)
+			last = r.exit
+			if broken {
 				break
 			}
 		}
